@@ -303,6 +303,23 @@ LOOKUP_FNS = ["database::room::Room::is_admin", "database::room::Room::is_user_v
               "database::room::Authorisation::can_admin_users", "database::room::Authorisation::get_right_at"]
 
 
+def _resolve_capture(fam, fb, term, depth=0):
+    """(body, origin term) of a value captured by a closure built in `fb`: when the value is itself a captured variable of
+    `fb` (a closure inside a closure), the operand captured under that name where `fb` was built is followed"""
+    o = fb.origin(mir.strip(term))
+    if o[0] == "upvar" and depth < 4:
+        for xb in fam:
+            for bi in xb.live_blocks():
+                for st in xb.blocks[bi]["s"]:
+                    rv = st["rv"]
+                    if rv["r"] == "aggr" and rv["kind"] in ("closure", "coroutine", "coroutine_closure") and rv.get("def") == fb.id:
+                        for op in rv["ops"]:
+                            ot = xb.origin(mir.strip(xb.operand_term(op)))
+                            if ot[0] in ("var", "param", "upvar") and ot[1] == o[1]:
+                                return _resolve_capture(fam, xb, ot, depth + 1)
+    return fb, o
+
+
 def history_lookup_rule(P, C, rule):
     """Every evaluation of a history vector at a date has one shape in this code base (6 sibling sites):
     `entries.iter().rev().find(|e| e.<date field> <= date)` followed by a read of the found entry's flag.
@@ -360,9 +377,9 @@ def history_lookup_rule(P, C, rule):
                         if not cmp_ok and field_path(l).split(".")[-1] == dfield and mir.strip(l)[0] == "field" and ru[0] == "upvar":
                             # the search lives in a helper analysed inlined: the captured date is the helper's parameter, bound to
                             # the date parameter of the lookup function at the call site (read from the closure's captured operands)
-                            caps = [fb.origin(mir.strip(x)) for x in (clos[4] if len(clos) > 4 else [])]
+                            caps = [_resolve_capture(fam, fb, x) for x in (clos[4] if len(clos) > 4 else [])]
                             dates = b.find_locals(ty=r"^i64$", param=True)
-                            cmp_ok = len(dates) == 1 and any(c_[0] in ("param", "var") and c_[1] == dates[0] and fb.root_type(c_) == "i64" for c_ in caps)
+                            cmp_ok = len(dates) == 1 and any(c_[0] in ("param", "var") and c_[1] == dates[0] and xb_.root_type(c_) == "i64" for xb_, c_ in caps)
                 shape_ok = shape_ok and okf and cmp_ok
             det += "; reversed iteration with `entry.%s <= date` as the only test of every search: %s" % (dfield, shape_ok)
             # the decision is the found entry's flag: `enabled` is read in the function or one of its closures, outside the search predicates
